@@ -8,6 +8,7 @@ import SF.Ops.Oracle
 import SF.Ops.Cbor
 import SF.Ops.Ubjson
 import SF.Ops.Json
+import SF.Ops.Unfold
 import SF.Gotype.Symbols
 namespace SF.Ops
 open SF
@@ -294,6 +295,11 @@ def runLine (op : String) (impl : String) : Result :=
   | "xcode" :: args => opXcode args impl
   | "reuse-enc" :: args => opReuseEnc args impl
   | "reuse-parse" :: args => opReuseParse args impl
+  | "unf" :: args => opUnf args impl
+  | "unf-reuse" :: args => opUnfReuse args impl
+  | "unf-type" :: args => opUnfType args impl
+  | "unfx" :: args => opUnfWhatIf args impl
+  | "unfc" :: args => opUnfClaim args impl
   | _ => { model := none }
 
 end SF.Ops
